@@ -229,6 +229,7 @@ def undefined_cases(ctx, dec, B, D):
     from pybufrkit.decoder import Decoder
     rng = ctx.rng
     pol = R.Policy(rng)
+    decc = Decoder(compiled_template_cache_max=4)
     variants = [
         ('top-level-element', [1001, 12001, 2001], 1, 63255),
         ('top-level-sequence', [1001, 12001, 2001], 1, 363255),
@@ -268,16 +269,19 @@ def undefined_cases(ctx, dec, B, D):
                 spec = dict(part='undefined', where=name, ids=ids, substituted=bad, compressed=comp, hex=bytes(b).hex())
                 ctx.count('undefined_cases')
                 ctx.evaluated(('undef', name, comp, rep), True)
-                try:
-                    dec.process(bytes(b))
-                    ctx.violate('undefined/decoded/%s' % name, 'descriptor %06d (in no table) %s: message decoded without error'
-                                % (bad, name), spec)
-                except UnknownDescriptor:
-                    ctx.count('undefined_raised_unknown_descriptor')
-                except Exception as e:
-                    ctx.violate('undefined/wrong-exception:%s/%s' % (type(e).__name__, name),
-                                'descriptor %06d %s: raised %s instead of UnknownDescriptor: %s' % (bad, name, type(e).__name__, str(e)[:100]),
-                                spec, exc=e)
+                for dname, dd in (('plain', dec), ('compiling', decc)):
+                    for wire in (True, False):
+                        try:
+                            dd.process(bytes(b), wire_template_data=wire)
+                            ctx.violate('undefined/decoded/%s%s' % (name, '' if dname == 'plain' else '/compiling-decoder'),
+                                        'descriptor %06d (in no table) %s: message decoded without error (%s decoder, wire=%s)'
+                                        % (bad, name, dname, wire), dict(spec, decoder=dname, wire=wire))
+                        except UnknownDescriptor:
+                            ctx.count('undefined_raised_unknown_descriptor')
+                        except Exception as e:
+                            ctx.violate('undefined/wrong-exception:%s/%s%s' % (type(e).__name__, name, '' if dname == 'plain' else '/compiling-decoder'),
+                                        'descriptor %06d %s: raised %s instead of UnknownDescriptor: %s (%s decoder)'
+                                        % (bad, name, type(e).__name__, str(e)[:100], dname), dict(spec, decoder=dname, wire=wire), exc=e)
     # inside a sequence: scratch tables root whose Table D refers to an id missing from Table B
     if ctx.shard == 0:
         scratch = os.path.join(os.environ.get('VERIF_SCRATCH', '/tmp'), 'c14tables')
